@@ -9,7 +9,9 @@ Case   {"cfg": {"writer": "blocking"|"awaitable", "hook": "default"|"quiet"|"rai
         registered - plain, first parameter `ls`, first parameter annotated with the server class; the
         last two go through feature_manager.wrap_with_server; not seen by the model)}
 Event  ["recv", frame] | ["task", t] | ["cb", t] | ["jstart", j] | ["jfin", j] | ["write"] |
-       ["exitcb"] | ["send", id] | ["scancel", id] | ["ocancel", o]
+       ["exitcb"] | ["send", id] | ["send", id, "react", resp-frame] | ["scancel", id] | ["ocancel", o]
+         (a reactive send: blocking writer only, the peer's response is dispatched INSIDE writer.write of
+          the request; for the model it is the two events ["send", id], ["recv", resp-frame])
          (the last two are Model/EndpointX.v's ServerCancel i = cancel() on the in-flight future i without
           popping it, and OutCancel o = the caller cancels the o-th future send_request returned)
          t / j = index of the handler task / pool work item in creation order
@@ -69,6 +71,75 @@ BUILTIN_FAIL = "textDocument/didClose"
 
 class HarnessError(Exception):
     pass
+
+
+# ------------------------------------------------------------------ what a raising handler raises
+# The model has ONE constructor for "the handler raises an ordinary exception" (ORaise -> -32603 reply, hook):
+# the reply must not depend on the class, the arguments or the text of the exception.  Catalogue shared with
+# harness/c06.py (EXC) and harness/c07.py (OTHER_SHAPES), plus arguments that JSON cannot encode.  Every
+# entry is an Exception; BaseExceptions that are not (SystemExit, KeyboardInterrupt, asyncio.CancelledError,
+# GeneratorExit) propagate by design and are not ORaise (C06 records them as candidates).
+class _BadStr(Exception):
+    def __str__(self):
+        raise RuntimeError("__str__ failed")
+
+    __repr__ = __str__
+
+
+def _noted():
+    e = ValueError("with notes")
+    if hasattr(e, "add_note"):
+        e.add_note("first note")
+        e.add_note("second\nnote")
+    return e
+
+
+def _group():
+    try:
+        return ExceptionGroup("several", [ValueError("a"), OSError(5, "b")])       # noqa: F821 (3.11+)
+    except NameError:
+        return RuntimeError("no ExceptionGroup")
+
+
+def _chained():
+    try:
+        try:
+            raise KeyError("inner")
+        except KeyError as e:
+            raise ValueError("outer") from e
+    except ValueError as e:
+        return e
+
+
+EXC_SHAPES = {
+    "runtime-msg": lambda: RuntimeError("scripted failure"),
+    "no-args": lambda: RuntimeError(),
+    "several-args": lambda: ValueError("a", 2, None),
+    "int-arg": lambda: Exception(5),
+    "dict-arg": lambda: Exception({"k": [1, 2]}),
+    "bytes-arg": lambda: Exception(b"\xff\x00"),
+    "set-arg": lambda: Exception({1, 2}),
+    "object-arg": lambda: Exception(object()),
+    "path-arg": lambda: KeyError(__import__("pathlib").Path("/no/such/file")),
+    "non-ascii": lambda: RuntimeError("d\u00e9faut \U0001F60B\nsecond line\r\n\ttab \x00"),
+    "broken-pipe": lambda: BrokenPipeError(32, "Broken pipe"),
+    "conn-reset": lambda: ConnectionResetError("reset"),
+    "conn-refused": lambda: ConnectionRefusedError(),
+    "oserror": lambda: OSError(5, "Input/output error"),
+    "timeout": lambda: TimeoutError("timed out"),
+    "keyerror": lambda: KeyError("x"),
+    "indexerror": lambda: IndexError(),
+    "valueerror-empty": lambda: ValueError(""),
+    "stop-iteration": lambda: StopIteration(3),
+    "str-raises": lambda: _BadStr("x"),
+    "notes": _noted,
+    "group": _group,
+    "chained": _chained,
+    "incomplete-read": lambda: asyncio.IncompleteReadError(b"ab", 5),
+    "unicode-error": lambda: UnicodeDecodeError("utf-8", b"\xff", 0, 1, "invalid start byte"),
+    "recursion": lambda: RecursionError("maximum recursion depth exceeded"),
+    "memory": lambda: MemoryError(),
+}
 
 
 # what a Sched reaches of pygls' private state (keys of harness/priv.py; the properties built on this
@@ -278,6 +349,8 @@ class Sched:
         from pygls.lsp.server import LanguageServer
         from pygls.io_ import run_async
         self.cfg = cfg
+        self.exc_salt, self.exc_count = 0, 0
+        self.react = None
         self.reg = reg or "plain"           # registration shape of the scripted handlers: plain | ls | ann
         self.main = threading.current_thread()
         self.tls = threading.local()
@@ -328,6 +401,7 @@ class Sched:
         self.reader = asyncio.StreamReader(loop=self.loop)
         handler = (priv.error_handler(self.server) if error_handler == "protected"
                    else self.server.report_server_error)
+        self._loop_handler = handler
         self.reader_task = self.loop.create_task(
             run_async(self.stop_event, self.reader, self.protocol, error_handler=handler))
         self._collect()
@@ -408,15 +482,27 @@ class Sched:
     def _log(self, ctx, part, phase):
         self.hlog.append([ctx["who"], part, phase, self._site()])
 
-    @staticmethod
-    def _outcome(b):
+    def _exception(self, b):
+        """The exception an ["raise"] outcome raises: `b["x"]` names a shape of EXC_SHAPES, else the shape
+        is derived from the case (its length) and the number of raising handlers so far - every check
+        that drives its cases through run_case covers the catalogue."""
+        # "str-raises" only on request: the default reporter formats the exception, which raises, so its
+        # window/showMessage is not sent (contained by _report_server_error - C06's subject, not the model's)
+        names = [n for n in sorted(EXC_SHAPES) if n != "str-raises"]
+        x = b.get("x")
+        if x is None:
+            x = names[(self.exc_salt + self.exc_count) % len(names)]
+            self.exc_count += 1
+        return EXC_SHAPES[x]()
+
+    def _outcome(self, b):
         o = b["o"]
         if o[0] == "ret":
             return o[1]
         if o[0] == "unser":
             return object()
         if o[0] == "raise":
-            raise RuntimeError("scripted failure")
+            raise self._exception(b)
         from pygls.exceptions import JsonRpcException
         raise JsonRpcException("scripted rpc failure", o[1])
 
@@ -574,6 +660,17 @@ class Sched:
         if k is not None and n >= k:
             raise OSError("scripted write failure")
         self.writes.append(bytes(data))
+        if self.react is not None:
+            # reactive transport (in-process pipe, loopback peer): the peer's answer to the request being
+            # written is dispatched while send_request is still inside writer.write(), on the same thread
+            frame = decode_frame(bytes(data))
+            if frame[0] == "req" and json.dumps(frame[1]) == json.dumps(self.react[0]):
+                body, self.react = self.react[1], None
+                try:
+                    self.protocol.handle_message(json.loads(body, object_hook=self.protocol.structure_message))
+                except Exception as exc:        # noqa - what the read loop does
+                    from pygls.exceptions import JsonRpcException
+                    self._loop_handler(exc, JsonRpcException)
 
     # ---- events
     def do(self, e):
@@ -609,7 +706,11 @@ class Sched:
             if self.exit_handles:
                 self._run_handle(self.exit_handles.pop(0))
         elif k == "send":
+            if len(e) > 2 and self.cfg["writer"] == "blocking":
+                # ["send", id, "react", resp-frame]: the answer arrives during the write
+                self.react = (e[1], wire(e[3]))
             self._user_send(e[1])
+            self.react = None
         elif k == "scancel":
             self._server_cancel(e[1])
         elif k == "ocancel":
@@ -792,6 +893,7 @@ def run_case(case, error_handler="protected"):
     # drives its cases through run_case covers the three shapes)
     reg = case_reg(case)
     s = Sched(case["cfg"], chained_of(case), error_handler, reg=reg)
+    s.exc_salt = len(case["evs"]) * 5 + len(json.dumps(case["evs"][:1]))
     obs = []
     gcs = set(case.get("gc") or [])
     alive = []
@@ -880,9 +982,22 @@ def enc_cfg(c):
             -1 if c.get("wfail") is None else c["wfail"]]
 
 
+def model_events(evs):
+    """The model's event list: a reactive send is the send followed by the arrival of the answer."""
+    out = []
+    for e in evs:
+        if e[0] == "send" and len(e) > 2:
+            out.append(["send", e[1]])
+            out.append(["recv", e[3]])
+        else:
+            out.append(e)
+    return out
+
+
 def encode_case(case, cmd="run"):
-    toks = enc_cfg(case["cfg"]) + [len(case["evs"])]
-    for e in case["evs"]:
+    evs = model_events(case["evs"])
+    toks = enc_cfg(case["cfg"]) + [len(evs)]
+    for e in evs:
         toks += enc_ev(e)
     return cmd + " " + " ".join(map(str, toks))
 
